@@ -205,6 +205,13 @@ def install(it):
         ctx.stubs[target] = stub_fn
     reg("use_stub", use_stub)
 
+    def use_lib_stub(it_, ctx, names, stub_fn):
+        """replace a library function (by its spec name, e.g. 'np.trapezoid') on this path"""
+        ctx.lib_stubs = getattr(ctx, "lib_stubs", {})
+        for n in ([names] if isinstance(names, str) else names):
+            ctx.lib_stubs[n] = stub_fn
+    reg("use_lib_stub", use_lib_stub)
+
     def harness(it_, ctx, *a, **k):
         def deco(f):
             f.attrs["harness"] = dict(k)
